@@ -83,21 +83,25 @@ package web
 
 // ---------------------------------------------------------------- sessions and request identity (C04, C13)
 
+// the store sees a session cookie only when its text is canonical base64 (the store's own decoder ignores the
+// padding bits of the last character: an altered cookie would pass for the issued one)
 //@ func GetSession
-//@   requires[C10] store: sessionStore != nil
+//@   requires[C10] store: sessionStore != nil && r != nil
+//@   assigns #cookieFound, #cookieText, #strictEnc, #strictOK, #strictOf
+//@   site gorilla_sessions.Store.Get requires[C13] canonical: arg1 == r && (#cookieFound ==> #strictOK && #strictOf == #cookieText)
 //@   ensures[C13] ok: result1 == nil ==> result0 != nil && result0.Values != nil && result0.Options != nil
 //@   ensures[C13] slot: result1 == nil ==> result0.Values[box("RDPGWID")] == nil || typeIs(result0.Values[box("RDPGWID")], bytes)
 //@   nopanic[C10]
 
 //@ func GetSessionIdentity
-//@   requires[C10] store: sessionStore != nil
-//@   assigns #gobDecoded
+//@   requires[C10] store: sessionStore != nil && r != nil
+//@   assigns #gobDecoded, #cookieFound, #cookieText, #strictEnc, #strictOK, #strictOf
 //@   ensures[C13] restored: result0 != nil ==> typeIs(result0, ptr(identity.User)) && dyn(result0, ptr(identity.User)) != nil && fresh(dyn(result0, ptr(identity.User))) && dyn(result0, ptr(identity.User)).attributes != nil
 //@   nopanic[C10]
 
 //@ func SaveSessionIdentity
 //@   requires[C10] wf: sessionStore != nil && id != nil && dyn(id, ptr(identity.User)) != nil
-//@   assigns region(gorilla_sessions.Options.MaxAge), region(map:Iface:iface), #gobEncoded, #sessionSaves
+//@   assigns region(gorilla_sessions.Options.MaxAge), region(map:Iface:iface), #gobEncoded, #sessionSaves, #cookieFound, #cookieText, #strictEnc, #strictOK, #strictOf
 //@   ghostset #savedId = id
 //@   ensures[C13] unchangedIdentity: dyn(id, ptr(identity.User)).authenticated == old(dyn(id, ptr(identity.User)).authenticated) && dyn(id, ptr(identity.User)).userName == old(dyn(id, ptr(identity.User)).userName) && dyn(id, ptr(identity.User)).attributes == old(dyn(id, ptr(identity.User)).attributes)
 //@   nopanic[C10]
